@@ -61,11 +61,15 @@ type Family struct {
 }
 
 var (
-	FamPlain  = Family{Name: "plain", Outcomes: []int{OutOK, OutErr}}
-	FamGoexit = Family{Name: "goexit", Outcomes: []int{OutOK, OutErr, OutGoexit}, MaxGoex: 1}
-	FamCancel = Family{Name: "cancel", Outcomes: []int{OutOK, OutErr, OutCancel}, PreCanc: true, Timer: true}
-	FamHang   = Family{Name: "hang", Outcomes: []int{OutOK, OutHang}, Timer: true}
-	FamEmit   = Family{Name: "emit", Outcomes: []int{OutOK, OutErr}, Emitter: true, Ticks: 2}
+	FamPlain     = Family{Name: "plain", Outcomes: []int{OutOK, OutErr}}
+	FamGoexit    = Family{Name: "goexit", Outcomes: []int{OutOK, OutErr, OutGoexit}, MaxGoex: 1}
+	FamPre       = Family{Name: "precancel", Outcomes: []int{OutOK, OutErr}, PreCanc: true}
+	FamJobCancel = Family{Name: "jobcancel", Outcomes: []int{OutOK, OutCancel}}
+	FamTimer     = Family{Name: "timer", Outcomes: []int{OutOK}, Timer: true}
+	FamCancel    = Family{Name: "cancel", Outcomes: []int{OutOK, OutErr, OutCancel}, PreCanc: true, Timer: true}
+	FamHang      = Family{Name: "hang", Outcomes: []int{OutOK, OutHang}, Timer: true}
+	FamEmit      = Family{Name: "emit", Outcomes: []int{OutOK, OutErr}, Emitter: true, Ticks: 1}
+	FamEmit2     = Family{Name: "emit2", Outcomes: []int{OutOK, OutErr}, Emitter: true, Ticks: 2}
 )
 
 func mkCubes(prefix string, shapes [][][]int, Ns []int, modes []bool, fams []Family) []*Cube {
@@ -94,68 +98,92 @@ func shapesUpTo(J, D int, dedupe bool) [][][]int {
 	return all
 }
 
-// L1Plan: which cubes and which obligations serve a property in a tier.
+// L1Plan: which cubes serve a property in a tier. Quick tiers are sized to a
+// few minutes on 16 cores (measured); thorough tiers add J=3 and the heavier
+// environment families.
 func L1Plan(prop, tier string) []*Cube {
 	both := []bool{false, true}
 	ff := []bool{false}
 	coe := []bool{true}
 	q := tier != "thorough"
 	var cubes []*Cube
-	small := shapesUpTo(2, 2, true)
-	Ns := []int{1, 2}
+	small := shapesUpTo(2, 2, true) // J=1; J=2: independent, chain, duplicate dependency
+	chain2 := [][][]int{{{}, {0}}}
+	j1 := [][][]int{{{}}}
+	N12 := []int{1, 2}
+	N1 := []int{1}
 	add := func(prefix string, shapes [][][]int, ns []int, modes []bool, fams ...Family) {
 		cubes = append(cubes, mkCubes(prop+prefix, shapes, ns, modes, fams)...)
 	}
 	j3 := dagShapes(3, 2, true)
-	j3full := dagShapes(3, 2, false)
-	_ = j3full
 	switch prop {
 	case "C01":
-		add("a", small, Ns, both, FamPlain, FamGoexit)
+		add("a", small, N12, both, FamPlain)
+		add("g", append(j1, chain2...), N12, both, FamGoexit)
 		if !q {
-			add("b", j3, Ns, both, FamPlain)
-		} else {
-			add("b", [][][]int{{{}, {0}, {0, 1}}}, []int{1}, ff, FamPlain)
+			add("b", j3, N12, both, FamPlain)
+			add("h", small, N12, both, FamGoexit)
 		}
 	case "C03":
-		add("a", small, Ns, both, FamPlain, FamGoexit)
+		add("a", small, N12, both, FamPlain)
+		add("g", append(j1, chain2...), N12, ff, FamGoexit)
 		if !q {
 			add("b", j3, []int{2}, both, FamPlain)
-			add("c", [][][]int{{{}, {}, {}}}, []int{2}, both, Family{Name: "goexit2", Outcomes: []int{OutOK, OutGoexit}, MaxGoex: 2})
-		}
-	case "C05":
-		add("a", small, Ns, both, FamPlain, FamGoexit, FamCancel, FamEmit)
-		if !q {
-			add("b", j3, Ns, both, FamPlain)
-		}
-	case "C06":
-		add("a", small, Ns, both, FamPlain, FamGoexit, FamCancel, FamEmit)
-		add("t", [][][]int{{{}, {}, {}, {}}}, []int{2}, ff, Family{Name: "plain4", Outcomes: []int{OutOK, OutErr}})
-		if !q {
-			add("b", j3, Ns, both, FamPlain)
-		}
-	case "C07":
-		add("a", small, Ns, ff, FamPlain, FamGoexit, FamCancel)
-		if !q {
-			add("b", j3, Ns, ff, FamPlain)
-		}
-	case "C08":
-		add("a", small, Ns, coe, FamPlain, FamGoexit, FamCancel)
-		if !q {
-			add("b", j3, Ns, coe, FamPlain)
-		}
-	case "C09":
-		add("a", small, Ns, both, FamCancel, FamHang)
-		if !q {
-			add("b", j3, []int{1, 2}, both, FamCancel)
-		}
-	case "C19":
-		add("a", small, Ns, both, FamEmit)
-		if !q {
-			add("b", dagShapes(3, 1, true), Ns, ff, FamEmit)
+			add("h", small, N12, both, FamGoexit)
+			add("c", [][][]int{{{}, {}, {}}}, []int{2}, ff, Family{Name: "goexit2", Outcomes: []int{OutOK, OutGoexit}, MaxGoex: 2})
 		}
 	case "C04":
-		add("a", small, Ns, both, FamPlain, FamGoexit)
+		add("a", small, N12, both, FamPlain)
+	case "C05":
+		add("a", small, N12, both, FamPlain)
+		add("g", append(j1, chain2...), N12, ff, FamGoexit)
+		add("p", append(j1, chain2...), N1, both, FamPre, FamJobCancel)
+		add("e", j1, N1, ff, FamEmit)
+		if !q {
+			add("b", j3, N12, both, FamPlain)
+			add("h", small, N12, both, FamGoexit, FamPre, FamJobCancel, FamTimer)
+			add("f", small, N12, both, FamEmit)
+		}
+	case "C06":
+		add("a", small, N12, both, FamPlain)
+		add("g", append(j1, chain2...), N12, ff, FamGoexit)
+		add("p", append(j1, chain2...), N1, both, FamPre, FamJobCancel)
+		add("e", j1, N1, ff, FamEmit)
+		if !q {
+			add("t", [][][]int{{{}, {}, {}, {}}}, []int{2}, ff, FamPlain)
+			add("b", j3, N12, both, FamPlain)
+			add("h", small, N12, both, FamGoexit, FamPre, FamJobCancel, FamTimer)
+		}
+	case "C07":
+		add("a", small, N12, ff, FamPlain)
+		add("g", append(j1, chain2...), N12, ff, FamGoexit)
+		add("p", append(j1, chain2...), N1, ff, FamPre, FamJobCancel)
+		if !q {
+			add("b", j3, N12, ff, FamPlain)
+			add("h", small, N12, ff, FamGoexit, FamPre, FamJobCancel, FamTimer)
+		}
+	case "C08":
+		add("a", small, N12, coe, FamPlain)
+		add("g", append(j1, chain2...), N12, coe, FamGoexit)
+		add("p", append(j1, chain2...), N1, coe, FamPre, FamJobCancel)
+		if !q {
+			add("b", j3, N12, coe, FamPlain)
+			add("h", small, N12, coe, FamGoexit, FamPre, FamJobCancel, FamTimer)
+		}
+	case "C09":
+		add("p", small, N1, both, FamPre, FamJobCancel)
+		add("t", append(j1, chain2...), N1, both, FamTimer, FamHang)
+		if !q {
+			add("q", small, []int{2}, both, FamPre, FamJobCancel, FamTimer, FamHang)
+			add("b", j3, N1, both, FamJobCancel)
+		}
+	case "C19":
+		add("a", small, N1, both, FamEmit)
+		add("n", j1, []int{2}, ff, FamEmit)
+		if !q {
+			add("b", small, N12, both, FamEmit2)
+			add("c", dagShapes(3, 1, true), N1, ff, FamEmit)
+		}
 	}
 	// cube ids must be valid Go identifiers
 	for _, c := range cubes {
